@@ -644,3 +644,55 @@ Definition nv_cfg : cfg := {| c_maxb := 2; c_latest := false; c_np := None; c_re
 Definition nv_events : list event :=
   [Poll; Produce 0 3; Poll; Poll; BatchDone 0; AddPartition; Produce 1 2; Poll; Crash; Poll; Poll; BatchDone 0; BatchDone 1].
 Definition nv_init : st := new_run nv_cfg (broker 1 (fun _ => 2) (fun _ => NONE)).
+
+(* ------------------------------------------------------------------------------------------ coverage *)
+(* oldest batch of partition p in the run *)
+Fixpoint first_of (p : nat) (l : list batch) : option batch :=
+  match l with
+  | [] => None
+  | b :: t => match first_of p t with
+              | Some a => Some a
+              | None => if Nat.eqb (b_part b) p then Some b else None
+              end
+  end.
+
+Lemma first_none_last_none p l : first_of p l = None -> last_of p l = None.
+Proof.
+  induction l as [|x t IH]; cbn [first_of]; intros H; [reflexivity|]. rewrite last_of_cons.
+  destruct (first_of p t); [discriminate|]. destruct (Nat.eqb (b_part x) p); [discriminate | apply IH; reflexivity].
+Qed.
+
+Lemma last_none_first_none p l : last_of p l = None -> first_of p l = None.
+Proof.
+  induction l as [|x t IH]; cbn [first_of]; intros H; [reflexivity|]. rewrite last_of_cons in H.
+  destruct (Nat.eqb (b_part x) p); [discriminate|]. rewrite (IH H). reflexivity.
+Qed.
+
+Lemma contig_cover l : contig l -> forall p a f, last_of p l = Some a -> first_of p l = Some f ->
+  forall o, b_lo f <= o <= b_hi a -> exists b, In b l /\ b_part b = p /\ b_lo b <= o <= b_hi b.
+Proof.
+  induction l as [|x t IH]; intros Hc p a f Ha Hf o Ho; [discriminate|].
+  cbn [contig] in Hc. destruct Hc as [Hc1 Hc2]. rewrite last_of_cons in Ha. cbn [first_of] in Hf.
+  destruct (Nat.eqb_spec (b_part x) p) as [e|e].
+  - inversion Ha; subst a. destruct (Z_le_gt_dec (b_lo x) o) as [Hle|Hgt].
+    + exists x. split; [left; reflexivity | split; [exact e | lia]].
+    + destruct (first_of p t) as [f'|] eqn:Ef.
+      * inversion Hf; subst f'. rewrite e in Hc1. destruct (last_of p t) as [y|] eqn:Ey.
+        -- destruct (IH Hc2 p y f Ey Ef o) as (b & Hb1 & Hb2 & Hb3); [lia|].
+           exists b. split; [right; exact Hb1 | auto].
+        -- rewrite (last_none_first_none p t Ey) in Ef. discriminate.
+      * inversion Hf; subst f. lia.
+  - destruct (first_of p t) as [f'|] eqn:Ef; [|discriminate]. inversion Hf; subst f'.
+    destruct (IH Hc2 p a f Ha Ef o Ho) as (b & Hb1 & Hb2 & Hb3). exists b. split; [right; exact Hb1 | auto].
+Qed.
+
+(* gap-free in the strongest sense: every offset between the start of the run's first range of a partition and
+   its current position lies in a batch emitted by this run (and by ranges_disjoint in exactly one) *)
+Theorem ranges_cover c s p f o : wf_cfg c -> reach c s -> first_of p (infl s) = Some f -> b_lo f <= o < pos s p ->
+  exists b, In b (infl s) /\ b_part b = p /\ b_lo b <= o <= b_hi b.
+Proof.
+  intros Hwf H Hf Ho. destruct (reach_inv c s Hwf H) as [I0 _].
+  destruct (last_of p (infl s)) as [a|] eqn:Ea.
+  - pose proof (i_last c s I0 p a Ea). apply (contig_cover (infl s) (i_contig c s I0) p a f Ea Hf). lia.
+  - rewrite (last_none_first_none p (infl s) Ea) in Hf. discriminate.
+Qed.
